@@ -133,11 +133,14 @@ def check_pred(cs, phys):
                 return fn(c)
             return g
 
-        if k == "str_matches":
-            rx = re.compile(a["pattern"])
-            return need_str(lambda c: rx.match(c) is not None)
-        if k == "str_contains":
-            rx = re.compile(a["pattern"])
+        if k in ("str_matches", "str_contains"):
+            # "flags": a compiled pattern (re.compile(pattern, flags)) is given to the check instead of the text
+            fl = 0
+            for f in a.get("flags") or []:
+                fl |= getattr(re, f)
+            rx = re.compile(a["pattern"], fl)
+            if k == "str_matches":
+                return need_str(lambda c: rx.match(c) is not None)
             return need_str(lambda c: rx.search(c) is not None)
         if k == "str_startswith":
             return need_str(lambda c: c.startswith(a["string"]))
